@@ -698,7 +698,9 @@ func checkAndPropagateArgs(
 		defineArgIdx++
 	}
 
-	if methodT.IsAnyType() {
+	// a receiver that is itself untyped stands in for its methods and takes
+	// any arguments; a configured method that merely returns Untyped does not
+	if methodT.IsAnyType() && methodT.DefinedFrame == "" {
 		return nil
 	}
 
